@@ -174,7 +174,7 @@ func ruleRefShapes(c *Ctx) {
 		c.inst(1)
 		sp := &Spec{}
 		sp.Classify = func(t *Tracer, fr *Frame, in ssa.Instruction) []Ev {
-			if st, ok := isStoreTo(in, fState); ok {
+			if st, ok := isStoreToT(t, fr, in, fState); ok {
 				if k, ok := constInt(st.Val); ok {
 					return []Ev{{Kind: fmt.Sprintf("state=%d", k)}}
 				}
@@ -236,10 +236,10 @@ func ruleRefShapes(c *Ctx) {
 		self := p.Method("server.Subscription." + fn.Name())
 		sp := &Spec{}
 		sp.Classify = func(t *Tracer, fr *Frame, in ssa.Instruction) []Ev {
-			if _, ok := isStoreTo(in, fISent); ok {
+			if _, ok := isStoreToT(t, fr, in, fISent); ok {
 				return []Ev{{Kind: "indirectsent++"}}
 			}
-			if st, ok := isStoreTo(in, fState); ok {
+			if st, ok := isStoreToT(t, fr, in, fState); ok {
 				if k, ok := constInt(st.Val); ok {
 					return []Ev{{Kind: fmt.Sprintf("state=%d", k)}}
 				}
@@ -254,7 +254,17 @@ func ruleRefShapes(c *Ctx) {
 				}
 			}
 			if selfCall {
-				b, isC := constBool(callArgs(call.Common())[2])
+				// the `indirect` argument: the bool parameter of the callee, wherever it stands
+				args := callArgs(call.Common())
+				bi := 2
+				if sf := call.Common().StaticCallee(); sf != nil {
+					for k, prm := range sf.Params {
+						if bt, isB := prm.Type().Underlying().(*types.Basic); isB && bt.Kind() == types.Bool && k < len(args) {
+							bi = k
+						}
+					}
+				}
+				b, isC := constBool(args[bi])
 				if isC && b {
 					return []Ev{{Kind: "recurse", Stop: true}}
 				}
@@ -337,7 +347,7 @@ func ruleRefShapes(c *Ctx) {
 				f *types.Var
 				k string
 			}{{fInd, "indirect-=count"}, {fISent, "indirectsent-=count"}, {fDir, "direct-=count"}} {
-				if st, ok := isStoreTo(in, fk.f); ok {
+				if st, ok := isStoreToT(t, fr, in, fk.f); ok {
 					if isSubCount(t, fr, st, fk.f) {
 						return []Ev{{Kind: fk.k}}
 					}
@@ -472,7 +482,7 @@ func ruleSentFlag(c *Ctx) {
 		root := p.Fn(name)
 		sp := &Spec{}
 		sp.Classify = func(t *Tracer, fr *Frame, in ssa.Instruction) []Ev {
-			if st, ok := isStoreTo(in, fState); ok {
+			if st, ok := isStoreToT(t, fr, in, fState); ok {
 				kind := "state="
 				if k, isC := constInt(st.Val); isC && k == deleted {
 					kind = "state=deleted"
@@ -687,7 +697,7 @@ func ruleSentWithFrame(c *Ctx) {
 		c.inst(1)
 		sp := &Spec{EdgeLimit: 1}
 		sp.Classify = func(t *Tracer, fr *Frame, in ssa.Instruction) []Ev {
-			if st, ok := isStoreTo(in, fISent); ok {
+			if st, ok := isStoreToT(t, fr, in, fISent); ok {
 				if b, isB := st.Val.(*ssa.BinOp); isB && b.Op == token.ADD {
 					return []Ev{{Kind: "sent++"}}
 				}
